@@ -36,4 +36,17 @@ theorem cloneEdges_spec (flip : Bool) : ∀ (ns : List BNode) (next : Nat),
       · obtain ⟨c, hc, hn, he⟩ := h6 m hm
         exact ⟨c, List.mem_cons_of_mem _ hc, hn, List.mem_cons_of_mem _ he⟩
 
+
+theorem cloneEdges_clone (flip : Bool) : ∀ (ns : List BNode) (next : Nat),
+    ∀ c ∈ (cloneEdges flip ns next).1, ∃ n ∈ ns, c.name = n.name ∧
+        (if flip then identityEdge c n else identityEdge n c) ∈ (cloneEdges flip ns next).2.1
+  | [], next => by simp [cloneEdges]
+  | n :: ns, next => by
+    intro c hc
+    simp only [cloneEdges, List.mem_cons] at hc ⊢
+    rcases hc with rfl | hc
+    · exact ⟨n, Or.inl rfl, rfl, Or.inl rfl⟩
+    · obtain ⟨m, hm, hn, he⟩ := cloneEdges_clone flip ns (next + 1) c hc
+      exact ⟨m, Or.inr hm, hn, Or.inr he⟩
+
 end CM
